@@ -277,36 +277,36 @@ def s53(ctx, prog):
     op = prog.adt(tables.OPERATOR)
     val = prog.adt(tables.VALUE)
 
-    def paths_for(name):
+    def paths_for(name, n):
         v = [x for x in op['variants'] if x['name'] == name][0]
         selfv = ADT(op['path'], v['idx'], v['name'], [])
-        it = Interp(prog, max_depth=2)
-        return it.paths(f, [selfv, SYM('arguments'), SYM('context')])
-    # Tuple
-    ps = paths_for('Tuple')
-    good = len(ps) == 1 and is_adt(ps[0][0], 'result::Result', 'Ok') and is_adt(ps[0][0][4][0], 'value::Value', 'Tuple') \
-        and ps[0][0][4][0][4][0][0] == 'app' and ps[0][0][4][0][4][0][2] == (SYM('arguments'),) and ('into' in ps[0][0][4][0][4][0][1] or 'to_vec' in ps[0][0][4][0][4][0][1])
-    ctx.check(good, 'S5.3', 'Tuple', 'tuple-arm', 'Tuple evaluates to Value::Tuple(all arguments, in order): %s' % [fmt(p[0]) for p in ps], span=f.span)
-    # Chain
-    ps = paths_for('Chain')
-    oks = [p for p in ps if is_adt(p[0], 'result::Result', 'Ok')]
-    errs = [p for p in ps if is_adt(p[0], 'result::Result', 'Err')]
-    good = len(oks) == 1 and len(errs) >= 1
-    if good:
-        v = oks[0][0][4][0]
-        s = fmt(v)
-        good = 'last($arguments)' in s.replace('core::slice::<impl [T]>::', '').replace('core::slice::<impl [value::Value<NumericTypes>]>::', '') or ('::last(' in s and '$arguments' in s)
-        good = good and 'first' not in s
-        br = branches_of(oks[0][1])
-        good = good and any('is_empty($arguments)' in fmt(b[0]).replace('core::slice::<impl [T]>::', '') or ('is_empty' in fmt(b[0]) and '$arguments' in fmt(b[0])) for b in br)
-    ctx.check(good, 'S5.3', 'Chain', 'chain-arm', 'Chain evaluates to its last argument and fails on an empty argument list: %s' % [fmt(p[0]) for p in ps], span=f.span)
-    # RootNode
-    ps = paths_for('RootNode')
-    rets = sorted(fmt(p[0]) for p in ps)
-    good = len(ps) == 2 and any(is_adt(p[0], 'result::Result', 'Ok') and is_adt(p[0][4][0], 'value::Value', 'Empty') for p in ps) \
-        and any(is_adt(p[0], 'result::Result', 'Ok') and 'first' in fmt(p[0]) and '$arguments' in fmt(p[0]) for p in ps)
-    ctx.check(good, 'S5.3', 'RootNode', 'root-arm', 'RootNode evaluates to its first argument, or Empty when it has none: %s' % rets, span=f.span)
-    ctx.sample(dict(rule='S5.3', RootNode=rets))
+        it = Interp(prog, max_depth=3)
+        return it.paths(f, [selfv, ('tuple', tuple(SYM('a%d' % i) for i in range(n))), SYM('context')])
+    cases = 0
+    for n in range(0, 4):
+        elems = tuple(SYM('a%d' % i) for i in range(n))
+        # Tuple: all arguments, in order
+        ps = paths_for('Tuple', n)
+        cases += 1
+        want = OK(ADT(val['path'], [x for x in val['variants'] if x['name'] == 'Tuple'][0]['idx'], 'Tuple', [('tuple', elems)]))
+        ctx.check([p[0] for p in ps] == [want], 'S5.3', 'Tuple[%d]' % n, 'tuple-arm', 'Tuple evaluates to Value::Tuple(all %d arguments, in order): %s' % (n, [fmt(p[0]) for p in ps]), span=f.span)
+        # Chain: the last argument; an empty argument list (never built by the parser) is an error or the empty value
+        ps = paths_for('Chain', n)
+        cases += 1
+        rets = [p[0] for p in ps]
+        if n == 0:
+            good = len(ps) >= 1 and all(is_adt(r, 'result::Result', 'Err') or r == OK(ADT(val['path'], [x for x in val['variants'] if x['name'] == 'Empty'][0]['idx'], 'Empty', [])) for r in rets)
+        else:
+            good = rets == [OK(elems[-1])]
+        ctx.check(good, 'S5.3', 'Chain[%d]' % n, 'chain-arm', 'Chain of %d arguments evaluates to its last argument: %s' % (n, [fmt(r) for r in rets]), span=f.span)
+        # RootNode: its first argument, Empty when it has none
+        if n <= 1:
+            ps = paths_for('RootNode', n)
+            cases += 1
+            rets = [p[0] for p in ps]
+            want = OK(elems[0]) if n else OK(ADT(val['path'], [x for x in val['variants'] if x['name'] == 'Empty'][0]['idx'], 'Empty', []))
+            ctx.check(rets == [want], 'S5.3', 'RootNode[%d]' % n, 'root-arm', 'RootNode evaluates to its first argument, or Empty when it has none: %s' % [fmt(r) for r in rets], span=f.span)
+    ctx.floor('S5.3', 'evaluation_arm_cases', cases, 10)
 
 
 class _Renamed:
